@@ -49,6 +49,7 @@ type PState struct {
 	Ok      bool                          `json:"ok"`
 	Comp    string                        `json:"comp"`
 	Dirty   string                        `json:"dirty"`
+	Enc     map[string]string             `json:"enc"`
 }
 
 type Ideal struct {
@@ -69,6 +70,7 @@ type PAction struct {
 	H        string   `json:"h"`
 	I        string   `json:"i"`
 	Sf       string   `json:"sf"`
+	En       string   `json:"en"`
 	E        *MethRec `json:"e"`
 	Devs     []string `json:"devs"`
 	Regen    []string `json:"regen"`
@@ -83,6 +85,8 @@ func (a PAction) String() string {
 		return fmt.Sprintf("EditBody(%s,%s,%s/%s/named=%v)", a.F, a.P, a.E.Body, a.E.Doc, a.E.Named)
 	case "AddHelper":
 		return fmt.Sprintf("AddHelper(%s,%s)", a.F, a.H)
+	case "Resave":
+		return fmt.Sprintf("Resave(%s,%s)", a.F, a.En)
 	case "AddImport":
 		return fmt.Sprintf("AddImport(%s,%s,%s)", a.F, a.P, a.I)
 	case "AddField", "MoveField":
@@ -107,6 +111,7 @@ type Obs struct {
 	Helpers map[string][]string
 	Imports map[string][]string
 	Warn    map[string][]WarnTok
+	Enc     map[string]string // encoding of each resolver file (lf, crlf, mixed, nonl, bom)
 	Ok      bool
 	Notes   []string // parse errors, unformatted files, unknown text
 }
@@ -230,6 +235,80 @@ func (c *Conc) Create(s *PState) error {
 	return c.WriteSchema(s)
 }
 
+// ---- file encodings ---------------------------------------------------------------
+//
+// "The user's editor re-saved the file": CRLF or mixed line endings, no final
+// newline, a UTF-8 byte order mark. The code is the same code; the harness's
+// own edits keep whatever encoding the file has.
+
+const bom = "\xEF\xBB\xBF"
+
+func detectEnc(b []byte) string {
+	s := string(b)
+	if strings.HasPrefix(s, bom) {
+		return "bom"
+	}
+	crlf := strings.Count(s, "\r\n")
+	lf := strings.Count(s, "\n")
+	switch {
+	case crlf > 0 && crlf == lf:
+		return "crlf"
+	case crlf > 0:
+		return "mixed"
+	case len(s) > 0 && !strings.HasSuffix(s, "\n"):
+		return "nonl"
+	}
+	return "lf"
+}
+
+func toLF(b []byte) []byte {
+	s := strings.TrimPrefix(string(b), bom)
+	s = strings.ReplaceAll(s, "\r\n", "\n")
+	if !strings.HasSuffix(s, "\n") {
+		s += "\n"
+	}
+	return []byte(s)
+}
+
+func encode(lf []byte, enc string) []byte {
+	s := string(toLF(lf))
+	switch enc {
+	case "crlf":
+		return []byte(strings.ReplaceAll(s, "\n", "\r\n"))
+	case "mixed":
+		lines := strings.SplitAfter(s, "\n")
+		for i := range lines {
+			if i%2 == 0 && strings.HasSuffix(lines[i], "\n") {
+				lines[i] = strings.TrimSuffix(lines[i], "\n") + "\r\n"
+			}
+		}
+		return []byte(strings.Join(lines, ""))
+	case "nonl":
+		return []byte(strings.TrimRight(s, "\n"))
+	case "bom":
+		return []byte(bom + s)
+	}
+	return []byte(s)
+}
+
+// readSrc reads a resolver file as LF text and reports its encoding.
+func readSrc(path string) ([]byte, string, error) {
+	b, err := os.ReadFile(path)
+	if err != nil {
+		return nil, "", err
+	}
+	return toLF(b), detectEnc(b), nil
+}
+
+// Resave rewrites resolver file rfile with encoding enc.
+func (c *Conc) Resave(rfile, enc string) error {
+	src, _, err := readSrc(c.RPath(rfile))
+	if err != nil {
+		return err
+	}
+	return os.WriteFile(c.RPath(rfile), encode(src, enc), 0o644)
+}
+
 // ---- user edits of Go sources ------------------------------------------------------
 
 // methodSource renders the body text of a method record: use lines + pool text.
@@ -272,7 +351,7 @@ func (c *Conc) findMethod(f *ast.File, pair string) (*ast.FuncDecl, string) {
 // the file like an editor would.
 func (c *Conc) SetMethod(rfile, pair string, m MethRec) error {
 	path := c.RPath(rfile)
-	src, err := os.ReadFile(path)
+	src, fenc, err := readSrc(path)
 	if err != nil {
 		return err
 	}
@@ -319,7 +398,7 @@ func (c *Conc) SetMethod(rfile, pair string, m MethRec) error {
 	if err != nil {
 		return fmt.Errorf("gofmt of edited %s: %v\n%s", rfile, err, out)
 	}
-	if err := os.WriteFile(path, fm, 0o644); err != nil {
+	if err := os.WriteFile(path, encode(fm, fenc), 0o644); err != nil {
 		return err
 	}
 	return c.register(rfile, pair, m)
@@ -329,7 +408,7 @@ func (c *Conc) SetMethod(rfile, pair string, m MethRec) error {
 // that the projection can map it back to the tokens.
 func (c *Conc) register(rfile, pair string, m MethRec) error {
 	path := c.RPath(rfile)
-	src, err := os.ReadFile(path)
+	src, _, err := readSrc(path)
 	if err != nil {
 		return err
 	}
@@ -363,7 +442,7 @@ func (c *Conc) register(rfile, pair string, m MethRec) error {
 func bodySource(fset *token.FileSet, src []byte, fd *ast.FuncDecl) string {
 	lb := fset.Position(fd.Body.Lbrace).Offset
 	rb := fset.Position(fd.Body.Rbrace).Offset
-	return strings.TrimSpace(string(src[lb+1 : rb]))
+	return strings.TrimSpace(strings.ReplaceAll(string(src[lb+1:rb]), "\r", ""))
 }
 
 var reUse = regexp.MustCompile(`// use:(\w+)$`)
@@ -411,7 +490,7 @@ func rawDoc(g *ast.CommentGroup) string {
 	}
 	var l []string
 	for _, cm := range g.List {
-		l = append(l, cm.Text)
+		l = append(l, strings.ReplaceAll(cm.Text, "\r", ""))
 	}
 	return strings.Join(l, "\n")
 }
@@ -419,7 +498,7 @@ func rawDoc(g *ast.CommentGroup) string {
 // AddImportSpec inserts the import of token tok into resolver file rfile.
 func (c *Conc) AddImportSpec(rfile, tok string) error {
 	path := c.RPath(rfile)
-	src, err := os.ReadFile(path)
+	src, fenc, err := readSrc(path)
 	if err != nil {
 		return err
 	}
@@ -438,14 +517,14 @@ func (c *Conc) AddImportSpec(rfile, tok string) error {
 	if err != nil {
 		return err
 	}
-	return os.WriteFile(path, fm, 0o644)
+	return os.WriteFile(path, encode(fm, fenc), 0o644)
 }
 
 // AddHelperDecls inserts the declarations of helper token tok into rfile
 // (seeded position: before the first function or after the last declaration).
 func (c *Conc) AddHelperDecls(rfile, tok string) error {
 	path := c.RPath(rfile)
-	src, err := os.ReadFile(path)
+	src, fenc, err := readSrc(path)
 	if err != nil {
 		return err
 	}
@@ -481,7 +560,7 @@ func (c *Conc) AddHelperDecls(rfile, tok string) error {
 	if err != nil {
 		return fmt.Errorf("gofmt after AddHelper: %v", err)
 	}
-	if err := os.WriteFile(path, fm, 0o644); err != nil {
+	if err := os.WriteFile(path, encode(fm, fenc), 0o644); err != nil {
 		return err
 	}
 	c.helpTok[name] = struct{ tok, file string }{tok, rfile}
@@ -700,7 +779,7 @@ func (c *Conc) helperTokens(found map[string][]string, rfile string, notes *[]st
 
 // Project reads the real resolver files and projects them onto the abstract state.
 func (c *Conc) Project() *Obs {
-	o := &Obs{Meth: map[string]map[string]MethRec{}, Helpers: map[string][]string{}, Imports: map[string][]string{}, Warn: map[string][]WarnTok{}, Ok: true}
+	o := &Obs{Meth: map[string]map[string]MethRec{}, Helpers: map[string][]string{}, Imports: map[string][]string{}, Warn: map[string][]WarnTok{}, Enc: map[string]string{}, Ok: true}
 	for _, rf := range c.RFiles() {
 		o.Meth[rf] = map[string]MethRec{}
 		for _, p := range c.Pairs {
@@ -708,10 +787,12 @@ func (c *Conc) Project() *Obs {
 		}
 		o.Helpers[rf], o.Imports[rf], o.Warn[rf] = []string{}, []string{}, []WarnTok{}
 		path := c.RPath(rf)
+		o.Enc[rf] = "lf"
 		src, err := os.ReadFile(path)
 		if err != nil {
 			continue // file does not exist: empty
 		}
+		o.Enc[rf] = detectEnc(src)
 		fset := token.NewFileSet()
 		f, err := parser.ParseFile(fset, path, src, parser.ParseComments)
 		if err != nil {
@@ -719,7 +800,7 @@ func (c *Conc) Project() *Obs {
 			o.Notes = append(o.Notes, fmt.Sprintf("%s does not parse: %v", filepath.Base(path), err))
 			continue
 		}
-		if fm, err := format.Source(src); err != nil || !bytes.Equal(fm, src) {
+		if fm, err := format.Source(src); o.Enc[rf] == "lf" && (err != nil || !bytes.Equal(fm, src)) {
 			o.Notes = append(o.Notes, fmt.Sprintf("%s is not gofmt-clean", filepath.Base(path)))
 		}
 		d := c.projectDecls(fset, src, f.Decls, true, &o.Notes)
@@ -760,6 +841,7 @@ func (c *Conc) Project() *Obs {
 		sort.Strings(o.Imports[rf])
 		// trailing warning block
 		if inner, ok := warnBlock(f); ok {
+			inner = strings.ReplaceAll(inner, "\r", "")
 			wf, err := parser.ParseFile(token.NewFileSet(), "warn.go", "package w\n"+inner, parser.ParseComments)
 			if err != nil {
 				o.Notes = append(o.Notes, fmt.Sprintf("%s: content of the warning block does not parse: %v", rf, err))
